@@ -149,27 +149,37 @@ def run(ctx):
         ctx.note("simulation", {"behaviours": len(behs), "new_trees": len(seen) - before, "depth4_states": d4})
         ph.done("tlc_simulation_and_bind")
 
-    # binding self-test: corrupted expectations must be noticed
-    probe = next(s for s in states if s["cassok"] and to_py(s["t"])["k"] == "map" and s["cql"][2] != s["cql"][4]
-                 and len(s["cql"]) == 6 and not evaluate(s)[1])
-    swapped = dict(probe)
-    c = list(probe["cql"])
-    c[2], c[4] = c[4], c[2]
-    swapped["cql"] = tuple(c)
-    fr = next(s for s in states if s["cassok"] and "frozen" in s["cql"] and not evaluate(s)[1])
-    nostrip = dict(fr)
-    nostrip["stripped"] = fr["cql"]
-    lst = next(s for s in states if s["cassok"] and to_py(s["t"]) == {"k": "list", "a": [{"k": "int", "a": [], "nm": "", "d": 0}], "nm": "", "d": 0})
-    wrongcodec = dict(lst)
-    tt = dict(to_py(lst["t"]))
-    tt["k"] = "set"
+    # binding self-test: corrupted expectations must be noticed.  A probe on which the code under test already
+    # fails is skipped (the run reports that violation anyway); the harness must not crash on a broken driver.
     from harness.tlaval import FrozenDict
-    wrongcodec["t"] = FrozenDict(k="set", a=lst["t"]["a"], nm="", d=0)
-    noticed = {"map_key_value_swapped": bool(evaluate(swapped)[1]), "frozen_not_stripped": bool(evaluate(nostrip)[1]),
-               "list_for_set": bool(evaluate(wrongcodec)[1])}
-    if not all(noticed.values()):
-        raise tlc.MachineryError("binding self-test failed: %r" % noticed)
-    ctx.note("binding_selftest", {"corrupted_rejected": len(noticed)})
+    INT = {"k": "int", "a": [], "nm": "", "d": 0}
+    TEXT = dict(INT, k="text")
+
+    def state_of(tree):
+        return next((s for s in states if to_py(s["t"]) == tree), None)
+
+    def swap_map(s):
+        c = list(s["cql"])
+        c[2], c[4] = c[4], c[2]
+        return dict(s, cql=tuple(c))
+    probes = {
+        "map_key_value_swapped": (state_of({"k": "map", "a": [INT, TEXT], "nm": "", "d": 0}), swap_map),
+        "frozen_not_stripped": (state_of({"k": "frozen", "a": [{"k": "list", "a": [INT], "nm": "", "d": 0}], "nm": "", "d": 0}),
+                                lambda s: dict(s, stripped=s["cql"])),
+        "list_for_set": (state_of({"k": "list", "a": [INT], "nm": "", "d": 0}),
+                         lambda s: dict(s, t=FrozenDict(k="set", a=s["t"]["a"], nm="", d=0))),
+    }
+    noticed = {}
+    for name, (st, corrupt) in probes.items():
+        if st is None:
+            raise tlc.MachineryError("binding self-test: probe tree for %s was not enumerated" % name)
+        if evaluate(st)[1]:
+            noticed[name] = "skipped (the code under test fails on the probe itself)"
+        elif not evaluate(corrupt(st))[1]:
+            raise tlc.MachineryError("binding self-test failed: corrupted expectation %s not noticed" % name)
+        else:
+            noticed[name] = "rejected"
+    ctx.note("binding_selftest", dict(noticed, corrupted_rejected=sum(1 for v in noticed.values() if v == "rejected")))
     report(ctx, failures)
     ph.done("verdicts")
     ctx.note("trees", len(seen))
